@@ -27,12 +27,14 @@ func init() {
 				"hash and string computations outside static reach.",
 			Rules: map[string]string{"C11-R1": "question-type gates", "C11-R2": "prefix length table", "C11-R3": "refuse, not forward", "C11-R4": "digest split agreement",
 				"C11-R7": "hashprefix.Filter.FilterRequest: cache first; then the type gate; then every candidate name (host and parents) is matched in order until the first hit; a hit is answered with the replacement built for this request and cached under this request's key",
+				"C11-R9": "every name hashed by Storage.Reset comes from a line source that removes the whole line terminator (bufio.Scanner's line splitting, or an explicit trim): a carriage return left on the name changes its hash",
 				"C11-R5": "each Storage method reads the atomically published hash set at most once per path (one list version per answer)",
 				"C11-R6": "result-cache key is an injective packing of host, question type, class and direction (a collision lets a non-A/AAAA/HTTPS question hit a filtered entry)"},
 		}})
 }
 
 func runC11(c *an.Ctx) {
+	c11LineSource(c)
 	// ---- R8: the safe-browsing filters are consulted unless the profile's own rules allow the host
 	c.Floor("C11-R8", 1)
 	c.Borrow("C11-R8", runC02, func(o an.Obligation) bool { return o.Rule == "C02-R2" })
@@ -635,4 +637,49 @@ func hashprefixMatchByPrefix(c *an.Ctx, rule string) {
 			return ""
 		},
 	})
+}
+
+// c11LineSource checks where the names hashed into the storage come from.
+func c11LineSource(c *an.Ctx) {
+	c.Floor("C11-R9", 1)
+	const k = "filter/hashprefix.(*Storage).Reset"
+	fn := c.Fn(k)
+	if fn == nil {
+		c.Und("C11-R9", k, token.NoPos, "anchor not found")
+		return
+	}
+	c.Analysed(k)
+	n := 0
+	for _, call := range an.CallsTo(fn, "crypto/sha256.Sum256") {
+		n++
+		var bad []string
+		w := &an.Walker{P: c.Prog, NoFieldJoin: true,
+			Visit: func(v ssa.Value) bool {
+				if cl, ok := v.(*ssa.Call); ok {
+					switch an.CalleeName(cl) {
+					case "(*bufio.Scanner).Text", "(*bufio.Scanner).Bytes", "strings.TrimSpace", "strings.TrimRight", "strings.TrimSuffix", "strings.Trim", "bytes.TrimSpace", "bytes.TrimRight":
+						return true
+					}
+				}
+				return false
+			},
+			ThroughCalls: func(cl *ssa.Call) ([]ssa.Value, bool) { return nil, false },
+			Leaf: func(v ssa.Value, why string) {
+				if _, isConst := v.(*ssa.Const); isConst {
+					return
+				}
+				bad = append(bad, fmt.Sprintf("%s (%s)", v.Name(), why))
+			},
+		}
+		w.Walk(call.Common().Args[0])
+		key := k + " hashed name source"
+		if len(bad) > 0 {
+			c.Bad("C11-R9", key, call.Pos(), "a hashed name does not come from a line source that strips the line terminator (bufio.Scanner line splitting or an explicit trim): %s; with CRLF lists every name is hashed with a trailing carriage return and never matches", strings.Join(uniq(bad), "; "))
+		} else {
+			c.Ok("C11-R9", key, call.Pos(), "every hashed name comes from the scanner's line splitting (or is trimmed)")
+		}
+	}
+	if n == 0 {
+		c.Und("C11-R9", k+" hashing", fn.Pos(), "no SHA-256 call found in Reset")
+	}
 }
